@@ -69,9 +69,9 @@ impl Check for C03 {
             let cfg_txt = format!("persona={persona} individually={individually} k={k} seed={} diversify={}", cfgm.solver_seed, cfgm.diversify);
             match &run.verdict {
                 Verdict::Fail(w) => {
-                    sh.distinct(util::mix(&[util::hash_str(&label), util::hash_str(&patronus::btor2::witness_to_string(w))]));
                     match validate_witness(&ctx, &sys, w) {
                         Ok(last) => {
+                            sh.distinct(util::mix(&[util::hash_str(&label), util::hash_str(&patronus::btor2::witness_to_string(w))]));
                             sh.count("witnesses_validated", 1);
                             sh.hist("witness_length", &(last + 1).to_string());
                             if let Err(d) = replay_in_interpreter(&ctx, &sys, w) {
